@@ -1773,7 +1773,18 @@ class EntityTemplate(Block):
                             )
                     return obj
 
+                def check_no_variable(obj, access: AccessFlags):
+                    # the statements are placed outside of the process
+                    # that declares the variables of the context
+                    assert not isinstance(obj, Variable), (
+                        f"variable '{obj._root}, name={obj._root.name()}' used in the always block/expression"
+                        " of a sequential context\n"
+                        f"{ctx.source_location()}\n"
+                    )
+                    return obj
+
                 always_expr.code().visit_objects(collect_always_written)
+                always_expr.code().visit_objects(check_no_variable)
                 ctx.code().visit_objects(check_not_always_written)
 
         for block in self.all_blocks():
